@@ -408,6 +408,15 @@ Model/SrcPreludeG.v; the text generated for every other unit is untouched):
   arguments as one list parameter; a generator of exactly the shape `for x in E: for y in x: yield y` is the list of what it
   yields: py_flat_addrs E for a list E of IPNetwork objects (`for y in x` over an IPNetwork = py_net_addrs, the hand model of
   IPListMixin.__iter__: IPAddress(first) .. IPAddress(last) as pairs); every other generator shape is rejected by FnG.
+* netaddr/ip/iana.py -> pysrc_ianab_gen.v (C19: MulticastParser.normalise_addr, DictUpdater.update).  `srec` = a record (dict of text) as
+  an association list: `d[k]` = py_srec_get (KeyError).  `self.dct[k] = v` must be the last statement of its path (SrcgPrepare.dict_items
+  checks tail position): the method answers the item (k, v) -- k as SrcPreludeG.ikeyview by its static class (IKNet / IKRange /
+  IKAddr) --, None on a path that stores nothing; the dict itself is not represented.  Text: `'c' in s` = contains_char,
+  `s.split('c')` = split, `s.strip()` = py_strip (PyStr.strip), `sep.join(l)` = join, `(a, b) = <list of text>` = py_unpack2g
+  (ValueError), `[str(int(x)) for x in xs]` = py_map_og of py_int_o 10 then fmt_d.  `IPAddress(<text>)` / `IPNetwork(<text>)` =
+  the translated constructors __init__:str with their literal defaults, `x = IPRange(<text>, <text>)` = the translated
+  IPRange.__init__:str, x being a refined IPRange operand afterwards (`x.cidrs()` = the translated method); a local that holds an
+  IPRange on one path and an IPNetwork on another is never joined (the continuation is translated once per path).
 """
 import ast
 import os
@@ -2948,8 +2957,21 @@ class FnE(Fn):
                     for (ty, t), (_, pty) in zip(args, d.params)]
         return self.generated(node, None, name, "", args)
 
+    def ex_str(self, node, env):
+        ty, t = self.ex(node, env)
+        if ty != "str":
+            bad(node, "text expected, got %s" % show(ty))
+        return t
+
     def listcomp(self, node, env):
         g = node.generators
+        if (len(g) == 1 and not g[0].ifs and not g[0].is_async and isinstance(g[0].target, ast.Name) and g[0].target.id not in env
+                and self.builtin_call(node.elt, "str", env, 1) and self.builtin_call(node.elt.args[0], "int", env, 1)
+                and isinstance(node.elt.args[0].args[0], ast.Name) and node.elt.args[0].args[0].id == g[0].target.id):
+            ty, t = self.ex(g[0].iter, env)              # [str(int(x)) for x in xs]: the decimal text of each item, ValueError at the first bad one
+            if is_list(ty) and ty[1].find().t == "str":
+                return ("out", ("list", Cell("str")), "(py_map_og (fun x => do n <- py_int_o 10 x; Ok (fmt_d n)) %s)" % t)
+            bad(node, "[str(int(x)) for x in xs] over %s" % show(ty))
         if (len(g) == 1 and not g[0].ifs and not g[0].is_async and isinstance(g[0].target, ast.Name) and isinstance(node.elt, ast.Call)
                 and dotted(node.elt.func) == "IPNetwork" and "IPNetwork" not in env and "IPNetwork" in self.mod.classes
                 and len(node.elt.args) == 1 and not node.elt.keywords and isinstance(node.elt.args[0], ast.Name)
@@ -7716,6 +7738,13 @@ SRCG_UNITS.append(
     # C05: iter_unique_ips(*args) -- the argument tuple is one list parameter; the generator is the list of what it yields
     (IPFILE, "pysrc_uniq_gen.v", "", " Model.Merge Model.SrcPreludeSRCE Model.SrcPreludeMerge Model.SrcPreludeG",
      [(None, "iter_unique_ips", {"args": "list mitem"})]))
+SRCG_UNITS.append(
+    # C19: how the IANA dictionaries are filled (second unit over iana.py; no table symbol).  `srec` = a record as handed to the
+    # subscriber: a dict of text values = association list; update() answers the item (key object, record) it stores
+    ("netaddr/ip/iana.py", "pysrc_ianab_gen.v", "iana_", " Base.PyStr Model.SrcPreludeStr Model.AddrText Model.SrcPreludeCtor Model.Iana Model.SrcPreludeSRCE Model.SrcPreludeG",
+     [("MulticastParser", "normalise_addr", {"addr": "str"}),
+      ("DictUpdater", "update", {"data": "srec", "self.topic": "str", "self.unique_key": "str"})]))
+STATE["MulticastParser"] = STATE["DictUpdater"] = ()
 # the constant keys of a registration record, in the order of the `orec` tuple (= the dict literal the class writes), per class
 SRCG_REC_KEYS = {"OUI": ("idx", "oui", "org", "address", "offset", "size"), "IAB": ("idx", "iab", "org", "address", "offset", "size")}
 SRCG_REC_TYPES = ("int", "str", "str", ("list", "str"), "int", "int")
@@ -7725,12 +7754,13 @@ UNITS = UNITS + SRCG_UNITS
 FILES = FILES + tuple(u[1] for u in SRCG_UNITS)
 SRCG_OUT = tuple(u[1] for u in SRCG_UNITS)
 SRCG_TYPES = {"ikey": "irow", "irec": "irow", "sdict": "sdict", "oui": "Z", "iab": "Z",
-              "orec": "(Z * string * string * (list string) * Z * Z)", "eindex": "eindex", "zpair": "(Z * Z)", "darg6": "darg6", "cls6g": "(string * bool)"}
+              "orec": "(Z * string * string * (list string) * Z * Z)", "eindex": "eindex", "zpair": "(Z * Z)", "darg6": "darg6", "cls6g": "(string * bool)",
+              "srec": "(list (string * string))", "ikv": "ikeyview"}
 SRCG_IDCLASS = {"oui": "OUI", "iab": "IAB"}
 COQTY.update(SRCG_TYPES)
 SRCG_RESERVED = set("irow ikeyview IKNet IKRange IKAddr py_ikey_view sdict py_sd_new py_sd_setdefault py_sd_append IANA_INFO "
                     "py_truthy py_fmt_oct py_fmt_hex py_index string append eindex py_eidx_mem py_eidx_get OUI_INDEX IAB_INDEX REGISTRY_FILE "
-                    "py_pair_of_list py_rec_set CSV_READER py_map_og py_triple_of_list py_eidx_setdefault py_eidx_append py_flat_addrs py_net_addrs darg6 D6None D6Class D6Other".split())
+                    "py_pair_of_list py_rec_set CSV_READER py_map_og py_triple_of_list py_eidx_setdefault py_eidx_append py_flat_addrs py_net_addrs darg6 D6None D6Class D6Other py_strip py_unpack2g py_srec_get split join contains_char".split())
 UNIT_PREAMBLE["pysrc_iana_gen.v"] = (
     "(* IANA_INFO[name] for the four dictionaries the module creates: the rows (key object, record) in insertion order *)\n"
     "Section WithTable.\nVariable IANA_INFO : string -> list irow.\n")
@@ -7748,7 +7778,9 @@ _is_value_before_SRCG = is_value
 
 
 def is_value(t):
-    return t in SRCG_TYPES or _is_value_before_SRCG(t)
+    if isinstance(t, tuple) and t and t[0] == "opnd":          # a refined operand (its field table is a dict: not hashable, and no Coq value)
+        return False
+    return (isinstance(t, str) and t in SRCG_TYPES) or _is_value_before_SRCG(t)
 
 
 def srcg_pseudo(name, args, at):
@@ -7828,7 +7860,29 @@ class SrcgPrepare(ast.NodeTransformer):
             return srcg_pseudo("__g_csv_rows", [a.generators[0].iter], n)
         return n
 
+    def dict_items(self, f):
+        """`self.dct[k] = v` as the last statement of its path (tail position: last in its block, the enclosing ifs last in theirs):
+        the method answers the item (k, v) it stores -> return __g_dict_item(k, v)"""
+        def tail(stmts):
+            for st in stmts[:-1]:
+                if any(isinstance(n, ast.Subscript) and dotted(n.value) == "self.dct" for n in ast.walk(st)):
+                    bad(st, "self.dct[..] used before the end of a path")
+            last = stmts[-1] if stmts else None
+            if isinstance(last, ast.If):
+                tail(last.body)
+                tail(last.orelse)
+            elif (isinstance(last, ast.Assign) and len(last.targets) == 1 and isinstance(last.targets[0], ast.Subscript)
+                  and dotted(last.targets[0].value) == "self.dct" and not isinstance(last.targets[0].slice, ast.Slice)):
+                stmts[-1] = ast.copy_location(ast.Return(value=srcg_pseudo("__g_dict_item", [last.targets[0].slice, last.value], last)), last)
+            elif last is not None and any(isinstance(n, ast.Subscript) and dotted(n.value) == "self.dct" for n in ast.walk(last)):
+                bad(last, "use of self.dct other than `self.dct[k] = v` at the end of a path")
+        if any(isinstance(n, ast.Attribute) and dotted(n) == "self.dct" for n in ast.walk(f)):
+            if any(isinstance(n, ast.Return) for n in ast.walk(f)):
+                bad(f, "a method that stores into self.dct and returns")
+            tail(f.body)
+
     def visit_FunctionDef(self, f):
+        self.dict_items(f)
         a = f.args
         if a.vararg is not None and not (a.args or a.kwarg or a.kwonlyargs or a.posonlyargs or a.defaults) and is_list(
                 parse_type(getattr(self.fn, "g_types", {}).get(a.vararg.arg, ""))):
@@ -8146,7 +8200,7 @@ class FnG(FnE):
 
     def isinstance_(self, s, t, neg, rest, env, k, after):
         x = t.args[0].id if len(t.args) == 2 and isinstance(t.args[0], ast.Name) else None
-        if x is not None and env.get(x, ("",))[0] in SRCG_IDCLASS and not t.keywords and isinstance(t.args[1], ast.Name):
+        if x is not None and isinstance(env.get(x, ("",))[0], str) and env.get(x, ("",))[0] in SRCG_IDCLASS and not t.keywords and isinstance(t.args[1], ast.Name):
             cls = SRCG_IDCLASS[env[x][0]]           # a parameter declared to be an OUI / IAB object: decided by the class hierarchy
             if cls not in self.mod.classes or t.args[1].id not in self.mod.classes or t.args[1].id in env:
                 bad(s, "isinstance against %s, which is not a class of this module" % t.args[1].id)
@@ -8197,6 +8251,16 @@ class FnG(FnE):
                 cls, state = self.state_of(node, *l)         # x == y / x != y: the translated __eq__ / __ne__ of x's class
                 return self.generated(node, cls, "__eq__" if isinstance(node.ops[0], ast.Eq) else "__ne__", state,
                                       [("operand", self.opnd_of(node, *r))])
+        if (isinstance(node, ast.Compare) and len(node.ops) == 1 and isinstance(node.ops[0], ast.In) and isinstance(node.left, ast.Constant)
+                and isinstance(node.left.value, str) and len(node.left.value) == 1 and 32 <= ord(node.left.value) < 127 and node.left.value != '"'
+                and self.tr.out == "pysrc_ianab_gen.v"):
+            ty, t = self.ex(node.comparators[0], env)        # 'c' in s
+            if ty != "str":
+                bad(node, "`in` on %s" % show(ty))
+            return ("bool", "(contains_char \"%s\"%%char %s)" % (node.left.value, t))
+        if (isinstance(node, ast.Subscript) and not isinstance(node.slice, ast.Slice) and isinstance(node.value, ast.Name)
+                and env.get(node.value.id, ("",))[0] == "srec"):
+            return ("out", "str", "(py_srec_get %s %s)" % (env[node.value.id][1], self.ex_str(node.slice, env)))      # d[k]: KeyError
         if isinstance(node, ast.Attribute) and dotted(node) in ("ieee." + x for x in SRCG_INDEX) and "ieee" not in env:
             return ("eindex", self.index_symbol(node))
         if (isinstance(node, ast.Compare) and len(node.ops) == 1 and isinstance(node.ops[0], ast.In)
@@ -8206,7 +8270,7 @@ class FnG(FnE):
                 and "ieee" not in env):
             return ("out", ("list", Cell("zpair")), "(py_eidx_get %s %s)" % (self.index_symbol(node.value), self.int_(node.slice, env)))
         if (isinstance(node, ast.Attribute) and node.attr == "_value" and isinstance(node.value, ast.Name)
-                and env.get(node.value.id, ("",))[0] in SRCG_IDCLASS):
+                and isinstance(env.get(node.value.id, ("",))[0], str) and env.get(node.value.id, ("",))[0] in SRCG_IDCLASS):
             return ("int", env[node.value.id][1])           # x._value of an OUI / IAB object x (represented by that integer)
         if (isinstance(node, ast.BinOp) and isinstance(node.op, ast.Mod) and isinstance(node.left, ast.Constant) and isinstance(node.left.value, str)
                 and isinstance(node.right, ast.Name) and node.right.id == "self" and "self" not in env and self.recv
@@ -8296,6 +8360,13 @@ class FnG(FnE):
         return t
 
     def ctor(self, node, cls, env):
+        if cls == "IPAddress" and len(node.args) == 1 and not node.keywords and self.tr.out == "pysrc_ianab_gen.v":
+            t = self.ex_str(node.args[0], env)               # IPAddress(<text>): the translated constructor __init__:str with its defaults
+            d = self.tr.get("IPAddress", "__init__:str", node)
+            if [x.arg for x in d.f.args.args][1:] != ["addr", "version", "flags"] or [
+                    (x.value if isinstance(x, ast.Constant) else x) for x in d.f.args.defaults] != [None, 0]:
+                bad(node, "IPAddress.__init__ is not (self, addr, version=None, flags=0)")
+            return self.generated(node, "IPAddress", "__init__:str", "", [("str", t), ("optint", "None"), ("int", "0")])
         if cls == "IPNetwork" and len(node.args) == 1 and not node.keywords and not isinstance(node.args[0], ast.Tuple):
             snap, pre0 = self.snapshot(), list(self.pre)
             ty, t = self.ex(node.args[0], env)
@@ -8441,10 +8512,30 @@ class FnG(FnE):
                     names.append(cn)
                 return self.wrap(pre, ("bind", pattern(names), "(do h0 <- %s; py_triple_of_list h0)" % r[2], go(env)))
             bad(s, "unpacking of %s" % show(r[1] if r[0] == "out" else r[0]))
+        if (isinstance(tgt, ast.Name) and isinstance(s.value, ast.Call) and dotted(s.value.func) == "IPRange" and "IPRange" not in env
+                and self.mod.imports.get("IPRange") == "netaddr.ip.IPRange" and len(s.value.args) == 2 and not s.value.keywords):
+            a, b = self.ex_str(s.value.args[0], env), self.ex_str(s.value.args[1], env)
+            d = self.tr.get("IPRange", "__init__:str", s)     # x = IPRange(<text>, <text>): the translated constructor, flags = its default
+            if [x.arg for x in d.f.args.args][1:] != ["start", "end", "flags"] or [const_int(x) for x in d.f.args.defaults] != [0]:
+                bad(s, "IPRange.__init__ is not (self, start, end, flags=0)")
+            r = self.generated(s, "IPRange", "__init__:str", "", [("str", a), ("str", b), ("int", "0")])
+            if r[0] != "out" or r[1] != ("tup", ("int", "int", "int")) and show(r[1]) != "tuple (int, int, int)":
+                bad(s, "unexpected translation of IPRange.__init__:str: %s" % show(r[1]))
+            pre, h = self.take_pre(), self.fresh()
+            self.coqname(tgt, tgt.id)
+            env = dict(env)
+            env[tgt.id] = (("opnd", "ORng", {"ver": "(fst (fst %s))" % h, "s": "(snd (fst %s))" % h, "e": "(snd %s)" % h}), None)
+            return self.wrap(pre, ("bind", h, r[2], go(env)))
         if isinstance(tgt, ast.Tuple) and len(tgt.elts) == 2 and all(isinstance(x, ast.Name) for x in tgt.elts):
             snap, pre0 = self.snapshot(), list(self.pre)
             r = self.rhs(s.value, env)
             ty = r[1] if r[0] == "out" else r[0]
+            if is_list(ty) and ty[1].find().t == "str" and r[0] != "out":      # (a, b) = <list of text>: ValueError unless two items
+                pre, names = self.take_pre(), []
+                for x in tgt.elts:
+                    cn, env = self.bind_local(x, x.id, "str", env, s.value)
+                    names.append(cn)
+                return self.wrap(pre, ("bind", pattern(names), "(py_unpack2g %s)" % r[1], go(env)))
             if ty == "zpair":                                # (a, b) = <an (offset, size) pair>
                 pre, names = self.take_pre(), []
                 for x in tgt.elts:
@@ -8477,6 +8568,30 @@ class FnG(FnE):
         name = f.id if isinstance(f, ast.Name) else None
         if name == "__g_sd_new":
             return ("sdict", "py_sd_new")
+        if name == "__g_dict_item":
+            kt = self.objname(node.args[0], env)
+            if kt is None:
+                bad(node, "self.dct[k] = v for a key that is not an IPNetwork / IPRange / IPAddress object")
+            ty, t = kt
+            key = ("(IKNet %s)" % t if ty == "net" else "(IKAddr %s)" % t[3] if ty == "obj" else
+                   "(IKRange %s %s %s)" % (ty[2]["ver"], ty[2]["s"], ty[2]["e"]) if ty[1] == "ORng" else None)
+            vt, v = self.ex(node.args[1], env)
+            if key is None or vt != "srec":
+                bad(node, "self.dct[k] = v with a %s value" % show(vt))
+            return (("tup", ("ikv", "srec")), "(%s, %s)" % (key, v))
+        if (isinstance(f, ast.Attribute) and not node.keywords and f.attr in ("split", "strip", "join") and self.tr.out == "pysrc_ianab_gen.v"):
+            ty, t = self.ex(f.value, env)
+            if ty != "str":
+                bad(node, "%s() on %s" % (f.attr, show(ty)))
+            if f.attr == "strip" and not node.args:
+                return ("str", "(py_strip %s)" % t)          # s.strip(): white space off both ends
+            if f.attr == "split" and len(node.args) == 1 and isinstance(node.args[0], ast.Constant) and isinstance(node.args[0].value, str) and len(node.args[0].value) == 1:
+                return (("list", Cell("str")), "(split %s %s)" % (srcc_charlit(node.args[0].value, node), t))
+            if f.attr == "join" and len(node.args) == 1:
+                lty, l = self.ex(node.args[0], env)
+                unify(node, lty, ("list", Cell("str")), "argument of join")
+                return ("str", "(join %s %s)" % (t, l))
+            bad(node, "%s() with an unsupported argument list" % f.attr)
         if name == "__g_flat_addrs":
             ty, t = self.ex(node.args[0], env)           # the addresses of the IPNetwork objects of a list, block after block
             if not (is_list(ty) and ty[1].find().t == "net"):
